@@ -417,6 +417,18 @@ Proof.
 Qed.
 Print Assumptions c04_fp_behind_cfi_known_witness.
 
+(* the state of F-C04a in the sources, through the translator (Gen/UnwindConsts.v is regenerated from the unwinders on
+   every run): is the register the frame-pointer technique marks valid listed, under that very name, among the registers
+   callee_forwarded_regs forwards?  x86 ebp, amd64 rbp, mips fp: yes; arm r11 and arm64 x29: no (listed as "fp").  A repair
+   of F-C04a changes this table, breaks this proof and so flags the known finding and the CFI clause of the precondition. *)
+Theorem c04_fp_forwarded_by_name :
+  map (fun a => memb (a_fp_name a) (a_callee_saved a)) [x86; amd64; arm; arm64; mips32; mips64] = [true; true; false; false; true; true] /\
+  map (fun a => memb (a_fp_name a) (fp_valid a)) [x86; amd64; arm; arm64] = [true; true; true; true] /\
+  map a_fp_name [arm; arm64] = [7483697; 7877177] /\        (* "r11", "x29" *)
+  memb 26224 (a_callee_saved arm) = true /\ memb 26224 (a_callee_saved arm64) = true.   (* "fp" *)
+Proof. repeat split; reflexivity. Qed.
+Print Assumptions c04_fp_forwarded_by_name.
+
 (* c04_recovers_chain_attributed is not vacuous: the module list [0x40000000, +0x10000) gives the module lookup of the
    64-call x86 stack above, the precondition holds with it, and the second call's lookup address (0x4000010f) gets the
    FUNC 100 100 record of the module's symbol file *)
